@@ -483,6 +483,33 @@ func checkOneOCRAMessage(c *Ctx, k ocraCase) bool {
 	return true
 }
 
+// c05NeighbourHistory: one goroutine, one suite and input, keys that differ minimally (see gen.NeighbourKeys),
+// alternating base / neighbour / base.
+func c05NeighbourHistory(c *Ctx) {
+	rng := c.RNG.Fork(512)
+	names := []string{"OCRA-1:HOTP-SHA1-6:QN08", "OCRA-1:HOTP-SHA256-8:C-QA10-PSHA256-S-T1M", "OCRA-1:HOTP-SHA512-10:QH10-S064"}
+	for rep := 0; rep < c.N(1, 6); rep++ {
+		for i, n := range gen.NeighbourKeyLengths {
+			name := names[(i+rep)%len(names)]
+			m, ok := ref.ParseSuiteName(name)
+			if !ok {
+				continue
+			}
+			in := inputToJ(admissibleInput(rng, m, i))
+			keys := gen.NeighbourKeys(rng, n)
+			call := func(k []byte) {
+				judgeOCRA(c, ocraCase{KeyHex: hexs(k), Secret: ref.Base32EncodeNoPad(k), Via: viaRaw, Suite: ref.Suite{Raw: name}, Input: in, Note: "neighbour-key history"})
+				c.R.Count("neighbour_key_history_calls", 1)
+			}
+			for _, v := range keys[1:] {
+				call(keys[0])
+				call(v)
+			}
+			call(keys[0])
+		}
+	}
+}
+
 func init() {
 	register(&Prop{
 		ID: "C05",
@@ -494,6 +521,7 @@ func init() {
 			b.flush()
 			checkOCRAMessages(c, b.keep)
 			runFmtStage(c, true, 4, c.N(20000, 1000000))
+			c05NeighbourHistory(c)
 		},
 		Replay: func(c *Ctx, kind string, raw json.RawMessage) error {
 			switch kind {
